@@ -38,22 +38,19 @@ macro_rules! compare_impl {
             for item in &items {
                 values.push(ctx.eval(item)?);
             }
-            for (items, values) in items.windows(2).zip(values.windows(2)) {
+            // Every argument has to be a number, also those after a pair that
+            // already decides the result.
+            for (item, value) in items.iter().zip(values.iter()) {
+                if !value.numberp() {
+                    return Err(Error::new(
+                        crate::ErrorKind::TypeMismatch,
+                        format!("Expected number, found: {value}"),
+                    )
+                    .with_trace(item.clone()));
+                }
+            }
+            for values in values.windows(2) {
                 let (a, b) = (&values[0], &values[1]);
-                if !a.numberp() {
-                    return Err(Error::new(
-                        crate::ErrorKind::TypeMismatch,
-                        format!("Expected number, found: {a}"),
-                    )
-                    .with_trace(items[0].clone()));
-                }
-                if !b.numberp() {
-                    return Err(Error::new(
-                        crate::ErrorKind::TypeMismatch,
-                        format!("Expected number, found: {b}"),
-                    )
-                    .with_trace(items[1].clone()));
-                }
                 if !compare_ops!(std::cmp::PartialOrd::$name)(a, b)? {
                     return Ok(TulispObject::nil());
                 }
